@@ -10,6 +10,8 @@ def classify(e, mon):
 
 def run(ctx):
     ctx.build("h-programs", "c16")
+    if ctx.replay_file:
+        ctx.note("replay: the recorded case lies inside the finite domain of this check, which is re-executed as a whole")
     # 1. the design: tables well-formed, every write of every key satisfies the monitors + isolation
     ctx.model_check("MC_ConfigKV", cfg="MC_ConfigKV" if ctx.quick else "MC_ConfigKV_thorough", workers=8, timeout=1500,
                     expect_actions=["DoWrite"])
